@@ -106,6 +106,32 @@ pub const PROFILES: &[Profile] = &[
         link: Some("ra"), pc: "pc", stack_args: false, x86: false, cconv: "__stdcall", other_cconvs: &[],
         machine: 8, base: 0x400000, int_size: 4,
     },
+    Profile {
+        name: "AARCH64_64", ptr: 8, big_endian: false, sp: "sp", fp: "x29",
+        gpr: &["x0", "x1", "x2", "x3", "x4", "x5", "x6", "x7", "x8", "x9", "x10", "x16", "x19", "x20", "x21", "x22"],
+        params: &["x0", "x1", "x2", "x3", "x4", "x5", "x6", "x7"], ret: "x0",
+        callee_saved: &["x19", "x20", "x21", "x22", "x29", "sp"],
+        killed: &["x0", "x1", "x2", "x3", "x4", "x5", "x6", "x7", "x8", "x9", "x10", "x16", "x30"],
+        subregs: &[("w0", "x0", 0, 4), ("w1", "x1", 0, 4), ("w2", "x2", 0, 4), ("w3", "x3", 0, 4), ("w8", "x8", 0, 4), ("w19", "x19", 0, 4)],
+        flags: &["ZR", "CY", "NG", "OV"],
+        float_regs: &[("q0", "q0", 0, 16), ("d0", "q0", 0, 8), ("s0", "q0", 0, 4), ("q1", "q1", 0, 16), ("d1", "q1", 0, 8)],
+        float_params: &["d0", "d1"], float_ret: &["d0"],
+        link: Some("x30"), pc: "pc", stack_args: false, x86: false, cconv: "__cdecl", other_cconvs: &[],
+        machine: 183, base: 0x400000, int_size: 4,
+    },
+    Profile {
+        name: "PowerPC_32", ptr: 4, big_endian: true, sp: "r1", fp: "r31",
+        gpr: &["r0", "r3", "r4", "r5", "r6", "r7", "r8", "r9", "r10", "r11", "r12", "r14", "r15", "r29", "r30"],
+        params: &["r3", "r4", "r5", "r6", "r7", "r8", "r9", "r10"], ret: "r3",
+        callee_saved: &["r14", "r15", "r29", "r30", "r31", "r1"],
+        killed: &["r0", "r3", "r4", "r5", "r6", "r7", "r8", "r9", "r10", "r11", "r12", "LR"],
+        subregs: &[],
+        flags: &[],
+        float_regs: &[("f1", "f1", 0, 8), ("f2", "f2", 0, 8)],
+        float_params: &["f1", "f2"], float_ret: &["f1"],
+        link: Some("LR"), pc: "pc", stack_args: false, x86: false, cconv: "__stdcall", other_cconvs: &[],
+        machine: 20, base: 0x10000000, int_size: 4,
+    },
 ];
 
 /// (name, number of parameters, has return value, no_return, var_args)
@@ -635,7 +661,7 @@ impl<'a> Gen<'a> {
             reg(p.pc, p.ptr)
         } else if self.r.chance(20) {
             let t = self.u(p.ptr);
-            b.def(Some(t.clone()), expr("INT_AND", &[reg(p.link.unwrap(), p.ptr), cst(0xfffffffe, p.ptr)]));
+            b.def(Some(t.clone()), expr("INT_AND", &[reg(p.link.unwrap(), p.ptr), cst(0xfffffffffffffffe, p.ptr)]));
             t
         } else {
             reg(p.link.unwrap(), p.ptr)
@@ -1683,7 +1709,7 @@ pub const FORMATS: &[&str] = &[
 pub fn generate(seed: u64) -> Workload {
     let mut r = Rng::new(seed);
     let lkm = r.chance(12);
-    let p: &Profile = if lkm { &PROFILES[0] } else { &PROFILES[[0usize, 0, 0, 1, 2, 3][r.below(6) as usize]] };
+    let p: &Profile = if lkm { &PROFILES[0] } else { &PROFILES[[0usize, 0, 0, 1, 2, 3, 4, 5][r.below(8) as usize]] };
     let pie = !lkm && r.chance(15);
     let debug_sections = r.chance(if lkm { 30 } else { 45 });
     let nfuncs = r.range(1, 8) as usize;
